@@ -52,6 +52,9 @@ type regexpSimplifyChecker struct {
 
 	// classHasDash tells whether the char class being walked has a literal '-' item.
 	classHasDash bool
+
+	// inCharClass tells whether the items of a char class are being walked.
+	inCharClass bool
 }
 
 func (c *regexpSimplifyChecker) VisitExpr(x ast.Expr) {
@@ -218,6 +221,12 @@ func (c *regexpSimplifyChecker) walk(e syntax.Expr) {
 	case syntax.OpEscapeChar:
 		switch e.Value {
 		case `\&`, `\#`, `\!`, `\@`, `\%`, `\<`, `\>`, `\:`, `\;`, `\/`, `\,`, `\=`, `\.`:
+			if c.inCharClass && (e.Value == `\:` || e.Value == `\=`) {
+				// `[[\:alpha:]]` is not `[[:alpha:]]`: after a `[` these
+				// characters start a POSIX class (or an equivalence class).
+				out.WriteString(e.Value)
+				break
+			}
 			c.score++
 			out.WriteString(e.Value[len(`\`):])
 		default:
@@ -250,6 +259,8 @@ func (c *regexpSimplifyChecker) walk(e syntax.Expr) {
 
 func (c *regexpSimplifyChecker) walkCharClassItems(class syntax.Expr) {
 	c.classHasDash = false
+	c.inCharClass = true
+	defer func() { c.inCharClass = false }()
 	for _, e := range class.Args {
 		if (e.Op == syntax.OpChar || e.Op == syntax.OpEscapeChar) && strings.HasSuffix(e.Value, "-") {
 			c.classHasDash = true
